@@ -483,6 +483,67 @@ fn c03_build(ctx: &Ctx, tier: Tier, seed: u64) -> Vec<Job<'static>> {
     vec![cut, wild]
 }
 
+fn simple_put(sc: &mut Scenario, unack: bool, size: u64, class: Content, cseed: u64) {
+    sc.puts.push(Put {
+        src: 0,
+        dst: 1,
+        unack,
+        src_name: "s.bin".into(),
+        dst_name: "d.bin".into(),
+        file: Some(FileSpec { size, class, cseed }),
+        reqs: vec![],
+        msgs: vec![],
+        at: Trigger::At(0),
+    });
+}
+
+fn c18_build(ctx: &Ctx, tier: Tier, seed: u64) -> Vec<Job<'static>> {
+    let (grid_cfgs, pairs, n_wild) = match tier {
+        Tier::Quick => (48, false, 20_000),
+        Tier::Thorough => (240, true, 500_000),
+    };
+    let root = ctx.root(997);
+    let mut rng = Rng::new(seed ^ 0xC185);
+    let mut sweep: Vec<Scenario> = vec![];
+    let mut ff: Vec<Scenario> = vec![];
+    for ci in 0..grid_cfgs {
+        let k = Knobs { unack: Some(true), closure: Some(ci % 2 == 0), max_segments: 4, ..Knobs::default() };
+        let mut sc = gen::pair_cfg(&mut rng, &k);
+        let seg = sc.ents[0].seg as u64;
+        let sizes = [0, 1, seg, 3 * seg + 1];
+        let classes = [Content::Rand, Content::ZeroRuns, Content::Zero, Content::Neutral];
+        simple_put(&mut sc, true, sizes[(ci / 2) % 4], classes[(ci / 8) % 4].clone(), rng.next_u64());
+        ff.push(sc.clone());
+        let prof = gen::profile(&sc, &root, 0, 1);
+        let sites = crate::sweep::sites(&prof, 0, 1, false);
+        let acts = [Act::Drop, Act::Dup { n: 1, gap_us: sc.lat_us * 2 }, Act::Delay { us: sc.lat_us * 4 + 50 * (sc.ser_us + 1) }];
+        sweep.extend(crate::sweep::placements(&sc, &sites, &acts, pairs, &|_| true));
+    }
+    let ff = std::sync::Arc::new(ff);
+    let sw = std::sync::Arc::new(sweep);
+    let (ff2, sw2) = (ff.clone(), sw.clone());
+    let j0 = Job { label: "fault-free grid: closure x size x content (strict)".into(), n: ff.len(), gen: Box::new(move |i| ff2[i].clone()) };
+    let j1 = Job {
+        label: "every single (thorough: double) drop/dup/delay over the fault-free exchange, both directions".into(),
+        n: sw.len(),
+        gen: Box::new(move |i| sw2[i].clone()),
+    };
+    let j2 = Job {
+        label: "seeded unbounded loss/dup/delay on larger files".into(),
+        n: n_wild,
+        gen: Box::new(move |i| {
+            let mut rng = Rng::new(mix(seed ^ 0xC18A, i as u64));
+            let k = Knobs { unack: Some(true), max_segments: 24, ..Knobs::default() };
+            let mut sc = gen::pair_cfg(&mut rng, &k);
+            gen::add_file_put(&mut sc, &mut rng, &k, 0, 1, 0);
+            let prof = estimate_profile(&sc);
+            sc.script = gen::wild_script(&mut rng, &sc, &prof, 0, 1);
+            sc
+        }),
+    };
+    vec![j0, j1, j2]
+}
+
 pub fn registry(prop: &str) -> Option<Check> {
     let real = REAL_SIM.to_vec();
     let stub = STUB_SIM.to_vec();
@@ -537,11 +598,27 @@ pub fn registry(prop: &str) -> Option<Check> {
             real,
             stub,
         },
+        "C18" => Check {
+            prop: "C18",
+            level: "fault_enumeration",
+            rule: "unacknowledged mode: grid closure x size {0,1,seg,3seg+1} x content {random, zero runs, all zero, checksum-neutral}; every single (thorough: every double) placement of drop/dup/delay over every PDU of both directions of the fault-free exchange; plus seeded unbounded faults on files up to 24 segments; non-trivial = a fault fired; distinct = distinct history fingerprint",
+            assumptions: vec![
+                "what the receiver held when EOF arrived is read off the FIFO delivery order (one transaction task processes its inbox in order)",
+                "extra EOF retransmissions by a closure-waiting sender are not flagged; a sender ending after limit x min(ack, inactivity) timeout without Finished is accepted",
+            ],
+            oracle: Box::new(oracle::c18::c18),
+            cross: Box::new(safety_cross),
+            probes: Box::new(common_probes),
+            build: c18_build,
+            admissible: Box::new(domain_basic),
+            real,
+            stub,
+        },
         _ => return None,
     })
 }
 
-pub const ALL_PROPS: [&str; 3] = ["C01", "C02", "C03"];
+pub const ALL_PROPS: [&str; 4] = ["C01", "C02", "C03", "C18"];
 
 #[allow(dead_code)]
 fn _unused() {
